@@ -11,6 +11,22 @@ def prop(pid, explanation):
     return deco
 
 
+def _r(rule_fn, ctx, rep, *args, **kw):
+    """run one rule; an unsupported construct or vanished anchor in it is recorded and the remaining rules still run, so that a
+    violation found by another rule is reported as such (the run ends as ANALYSIS-ERROR only when no violation was found)"""
+    from .absint import Unsupported, PyRaise
+    from .report import AnalysisError
+    try:
+        rule_fn(ctx, rep, *args, **kw)
+    except (AnalysisError, Unsupported) as e:
+        rep.errors.append(f"{rule_fn.__module__.split('.')[-1]}.{rule_fn.__name__}: {type(e).__name__}: {e}")
+    except PyRaise as e:
+        # an exception of the analysed code outside any row a rule had prepared for it
+        rep.errors.append(f"{rule_fn.__module__.split('.')[-1]}.{rule_fn.__name__}: the analysed code raises {e.exc} at {e.where} while the rule sets up its inputs")
+    except RecursionError:
+        rep.errors.append(f"{rule_fn.__module__.split('.')[-1]}.{rule_fn.__name__}: recursion limit of the evaluator")
+
+
 def run(pid, ctx, rep):
     explanation, fn = PROPS[pid]
     fn(ctx, rep)
@@ -23,9 +39,9 @@ def run(pid, ctx, rep):
              "stack discipline of Stack/construct_stack_ast/_flatten_ast on abstract blocks. Not decided: operand positions "
              "after arbitrary instruction sequences (follows by induction from these clauses; not mechanised).")
 def c11(ctx, rep):
-    optable.rule_opcode_classes(ctx, rep)
-    optable.rule_stack_effect(ctx, rep)
-    stack_rules.rule_stack_discipline(ctx, rep)
+    _r(optable.rule_opcode_classes, ctx, rep)
+    _r(optable.rule_stack_effect, ctx, rep)
+    _r(stack_rules.rule_stack_discipline, ctx, rep)
     rep.assume("spec/avm_ops.json is the AVM stack effect of every v1-v8 opcode (hand-reviewed; version/mode cross-checked with PyTeal)")
 
 
@@ -35,24 +51,24 @@ def c11(ctx, rep):
              "class and text; (T-FIELD) field tables map each AVM field name to a class printing that name. Decided by abstract "
              "evaluation of parse_line/__str__ syntax trees; not decided: byte-literal decoding over the infinite literal grammar.")
 def c16(ctx, rep):
-    optable.rule_prefix_table(ctx, rep)
-    optable.rule_prefix_and_roundtrip(ctx, rep)
-    optable.rule_field_tables(ctx, rep)
-    optable.rule_tokens(ctx, rep)
-    spelling.rule_int_spellings(ctx, rep)
+    _r(optable.rule_prefix_table, ctx, rep)
+    _r(optable.rule_prefix_and_roundtrip, ctx, rep)
+    _r(optable.rule_field_tables, ctx, rep)
+    _r(optable.rule_tokens, ctx, rep)
+    _r(spelling.rule_int_spellings, ctx, rep)
 
 
 @prop("C19", "Decides the structural clauses of C19: (T-OP(version,mode)) introduction version and mode of every opcode class and "
              "(T-FIELD(version)) of every field class equal the AVM tables; (T-OP(cost)) cost for every declared version >= "
              "introduction equals the AVM cost table and BasicBlock.cost is the sum; (T-VERSION) _verify_version over every opcode x declared version 1-8 and every field x boundary versions, mixed-mode rows; (T-MODE) mode detection table, declared version, contract type and routing on program shapes. Not decided: run-time size dependent cost parts.")
 def c19(ctx, rep):
-    optable.rule_opcode_classes(ctx, rep)
-    optable.rule_version_mode(ctx, rep)
-    optable.rule_field_versions(ctx, rep)
-    optable.rule_cost(ctx, rep)
-    version_rules.rule_verify_version(ctx, rep)
-    version_rules.rule_detect_mode_table(ctx, rep)
-    version_rules.rule_mode_and_type(ctx, rep)
+    _r(optable.rule_opcode_classes, ctx, rep)
+    _r(optable.rule_version_mode, ctx, rep)
+    _r(optable.rule_field_versions, ctx, rep)
+    _r(optable.rule_cost, ctx, rep)
+    _r(version_rules.rule_verify_version, ctx, rep)
+    _r(version_rules.rule_detect_mode_table, ctx, rep)
+    _r(version_rules.rule_mode_and_type, ctx, rep)
 
 
 from .rules import cmptables  # noqa: E402
@@ -64,9 +80,9 @@ from .rules import cmptables  # noqa: E402
              "defaults. Extracted by abstract evaluation of _get_asserted_single and its callees (incl. tealer's own stack "
              "reconstruction). Not decided: soundness/exactness of the fixpoint over all programs.")
 def c06(ctx, rep):
-    cmptables.rule_int_tables(ctx, rep)
-    cmptables.rule_set_algebra(ctx, rep, which=("int_fields",))
-    cmptables.rule_int_store(ctx, rep)
+    _r(cmptables.rule_int_tables, ctx, rep)
+    _r(cmptables.rule_set_algebra, ctx, rep, which=("int_fields",))
+    _r(cmptables.rule_int_store, ctx, rep)
     generic_core(ctx, rep)
 
 
@@ -75,9 +91,9 @@ def c06(ctx, rep):
              "FeeValue chain with 'unknown' at 272000, constants; (T-STORE(fee)) key family <-> context accessor pairing. "
              "Not decided: the fixpoint over all programs.")
 def c09(ctx, rep):
-    cmptables.rule_fee_tables(ctx, rep)
-    cmptables.rule_fee_lattice(ctx, rep)
-    cmptables.rule_fee_store(ctx, rep)
+    _r(cmptables.rule_fee_tables, ctx, rep)
+    _r(cmptables.rule_fee_lattice, ctx, rep)
+    _r(cmptables.rule_fee_store, ctx, rep)
     generic_core(ctx, rep)
 
 
@@ -87,9 +103,9 @@ def c09(ctx, rep):
              "give (ANY, ANY); (T-STORE(addr)) _set_addr_values and key->attribute pairing over self/at-index/absolute/relative "
              "contexts. Not decided: the fixpoint over all programs.")
 def c08(ctx, rep):
-    cmptables.rule_addr_lattice(ctx, rep)
-    cmptables.rule_addr_tables(ctx, rep)
-    cmptables.rule_addr_store(ctx, rep)
+    _r(cmptables.rule_addr_lattice, ctx, rep)
+    _r(cmptables.rule_addr_tables, ctx, rep)
+    _r(cmptables.rule_addr_store, ctx, rep)
     generic_core(ctx, rep)
 
 
@@ -98,9 +114,9 @@ def c08(ctx, rep):
              "constant incl. invalid ones x {true, false} - each of Pay/Axfer/ApplUpdateApplication/ApplDeleteApplication whose "
              "field valuation can make the comparison come out that way is retained. Not decided: propagation through the solver.")
 def c07(ctx, rep):
-    cmptables.rule_kind_tables(ctx, rep)
-    cmptables.rule_set_algebra(ctx, rep, which=("txn_types",))
-    cmptables._store_family_rule(ctx, rep, "T-STORE(kind)", "txn_types")
+    _r(cmptables.rule_kind_tables, ctx, rep)
+    _r(cmptables.rule_set_algebra, ctx, rep, which=("txn_types",))
+    _r(cmptables._store_family_rule, ctx, rep, "T-STORE(kind)", "txn_types")
     generic_core(ctx, rep)
 
 
@@ -109,14 +125,14 @@ from .rules import generic_tables  # noqa: E402
 
 def generic_core(ctx, rep):
     """the generic solver's tables: every per-field property (C06-C10) and C01 rest on them"""
-    generic_tables.rule_comb(ctx, rep)
-    generic_tables.rule_block(ctx, rep)
-    generic_tables.rule_edge(ctx, rep)
-    generic_tables.rule_eqn(ctx, rep)
-    generic_tables.rule_worklist(ctx, rep)
-    stack_rules.rule_stack_discipline(ctx, rep, full=False)
-    spelling.rule_constant_block(ctx, rep)
-    effects.rule_pure_lattice(ctx, rep)
+    _r(generic_tables.rule_comb, ctx, rep)
+    _r(generic_tables.rule_block, ctx, rep)
+    _r(generic_tables.rule_edge, ctx, rep)
+    _r(generic_tables.rule_eqn, ctx, rep)
+    _r(generic_tables.rule_worklist, ctx, rep)
+    _r(stack_rules.rule_stack_discipline, ctx, rep, full=False)
+    _r(spelling.rule_constant_block, ctx, rep)
+    _r(effects.rule_pure_lattice, ctx, rep)
 
 
 @prop("C03", "Decides the structural clauses of C03 (exactness of the transfer tables on direct checks): (T-COMB) Boolean "
@@ -126,15 +142,15 @@ def generic_core(ctx, rep):
              "(T-CMP exactness) the comparison tables of C06/C08/C09 and exactness of the compared label for the kind domain. "
              "Not decided: exactness of the fixpoint for every placement of checks in every control shape.")
 def c03(ctx, rep):
-    generic_tables.rule_comb(ctx, rep)
-    generic_tables.rule_block(ctx, rep)
-    generic_tables.rule_edge(ctx, rep)
-    generic_tables.rule_eqn(ctx, rep)
-    generic_tables.rule_worklist(ctx, rep)
-    cmptables.rule_fee_tables(ctx, rep)
-    cmptables.rule_addr_tables(ctx, rep)
-    cmptables.rule_int_tables(ctx, rep)
-    cmptables.rule_kind_exact_compared(ctx, rep)
+    _r(generic_tables.rule_comb, ctx, rep)
+    _r(generic_tables.rule_block, ctx, rep)
+    _r(generic_tables.rule_edge, ctx, rep)
+    _r(generic_tables.rule_eqn, ctx, rep)
+    _r(generic_tables.rule_worklist, ctx, rep)
+    _r(cmptables.rule_fee_tables, ctx, rep)
+    _r(cmptables.rule_addr_tables, ctx, rep)
+    _r(cmptables.rule_int_tables, ctx, rep)
+    _r(cmptables.rule_kind_exact_compared, ctx, rep)
 
 
 from .rules import gtxn_tables  # noqa: E402
@@ -147,12 +163,12 @@ from .rules import gtxn_tables  # noqa: E402
              "own-field information into at-index keys only; (T-STORE) key family <-> accessor pairing of every analysis. "
              "Not decided: soundness for other group members over all programs.")
 def c10(ctx, rep):
-    gtxn_tables.rule_index_classification(ctx, rep)
-    gtxn_tables.rule_key_matching(ctx, rep)
-    gtxn_tables.rule_key_names(ctx, rep)
-    gtxn_tables.rule_key_universe(ctx, rep)
-    gtxn_tables.rule_gtxn_attribution(ctx, rep)
-    gtxn_tables.rule_gtxn_merge(ctx, rep)
+    _r(gtxn_tables.rule_index_classification, ctx, rep)
+    _r(gtxn_tables.rule_key_matching, ctx, rep)
+    _r(gtxn_tables.rule_key_names, ctx, rep)
+    _r(gtxn_tables.rule_key_universe, ctx, rep)
+    _r(gtxn_tables.rule_gtxn_attribution, ctx, rep)
+    _r(gtxn_tables.rule_gtxn_merge, ctx, rep)
     for name, mod in (("T-STORE(fee)", "fee_field"), ("T-STORE(addr)", "addr_fields"), ("T-STORE(kind)", "txn_types")):
         rep.rule(name, "key family <-> context accessor pairing in _store_results")
         cmptables._store_family_rule(ctx, rep, name, mod)
@@ -169,15 +185,15 @@ from .rules import detectors  # noqa: E402
              "the path search on abstract CFG neighbourhoods. The analysis-side clauses are decided under C03/C06-C10. "
              "Not decided: soundness of the per-block contexts for every program (the fixpoint).")
 def c01(ctx, rep):
-    detectors.rule_checks_field(ctx, rep)
-    detectors.rule_validated_in_block(ctx, rep)
-    detectors.rule_search_paths_exits(ctx, rep)
-    detectors.rule_search_paths_rows(ctx, rep)
-    detectors.rule_absolute_index_access(ctx, rep)
+    _r(detectors.rule_checks_field, ctx, rep)
+    _r(detectors.rule_validated_in_block, ctx, rep)
+    _r(detectors.rule_search_paths_exits, ctx, rep)
+    _r(detectors.rule_search_paths_rows, ctx, rep)
+    _r(detectors.rule_absolute_index_access, ctx, rep)
     generic_core(ctx, rep)
-    optable.rule_stack_effect(ctx, rep)
-    cmptables.rule_addr_tables(ctx, rep)
-    cmptables.rule_fee_tables(ctx, rep)
+    _r(optable.rule_stack_effect, ctx, rep)
+    _r(cmptables.rule_addr_tables, ctx, rep)
+    _r(cmptables.rule_fee_tables, ctx, rep)
 
 
 @prop("C13", "Decides the structural clauses of C13: (T-GROUP) the group verdict function on abstract two-member groups with marker "
@@ -187,12 +203,12 @@ def c01(ctx, rep):
              "relative offset, either operand order) an indexed read is credited to. Not decided: agreement with concrete group "
              "semantics over all programs; equality with the single-contract verdict.")
 def c13(ctx, rep):
-    detectors.rule_group_verdicts(ctx, rep)
-    detectors.rule_offset_inversion(ctx, rep)
-    detectors.rule_group_config(ctx, rep)
-    detectors.rule_validated_in_block(ctx, rep)
-    gtxn_tables.rule_index_classification(ctx, rep)
-    gtxn_tables.rule_key_matching(ctx, rep)
+    _r(detectors.rule_group_verdicts, ctx, rep)
+    _r(detectors.rule_offset_inversion, ctx, rep)
+    _r(detectors.rule_group_config, ctx, rep)
+    _r(detectors.rule_validated_in_block, ctx, rep)
+    _r(gtxn_tables.rule_index_classification, ctx, rep)
+    _r(gtxn_tables.rule_key_matching, ctx, rep)
 
 
 from .rules import cfg_rules  # noqa: E402
@@ -205,14 +221,14 @@ from .rules import cfg_rules  # noqa: E402
              "duplicate-free successors, (R-OWN) who may write edges; (T-GLOBAL) global successor/predecessor tables mutually "
              "inverse. Not decided: that every concrete execution of every program is a walk in the graph.")
 def c04(ctx, rep):
-    cfg_rules.rule_flow_table(ctx, rep)
-    cfg_rules.rule_cfg_shapes(ctx, rep)
-    cfg_rules.rule_no_mutation_under_iteration(ctx, rep)
-    cfg_rules.rule_edge_pairing(ctx, rep)
-    cfg_rules.rule_pass_order(ctx, rep)
-    cfg_rules.rule_successor_dedup(ctx, rep)
-    cfg_rules.rule_edge_ownership(ctx, rep)
-    cfg_rules.rule_global_edges_inverse(ctx, rep)
+    _r(cfg_rules.rule_flow_table, ctx, rep)
+    _r(cfg_rules.rule_cfg_shapes, ctx, rep)
+    _r(cfg_rules.rule_no_mutation_under_iteration, ctx, rep)
+    _r(cfg_rules.rule_edge_pairing, ctx, rep)
+    _r(cfg_rules.rule_pass_order, ctx, rep)
+    _r(cfg_rules.rule_successor_dedup, ctx, rep)
+    _r(cfg_rules.rule_edge_ownership, ctx, rep)
+    _r(cfg_rules.rule_global_edges_inverse, ctx, rep)
 
 
 @prop("C05", "Decides the structural clauses of C05: (T-CFG subroutines) on 29 abstract program shape classes (0-3 subroutines; nested, "
@@ -221,10 +237,10 @@ def c04(ctx, rep):
              "reference construction, every callsub block knows its callee and return point; (T-CALLGRAPH) call-graph edges = retained "
              "call sites; (R-SIBLING) the three return-point implementations agree. Not decided: every arrangement of every program.")
 def c05(ctx, rep):
-    cfg_rules.rule_cfg_shapes(ctx, rep, rule="T-CFG(subroutines)", subs_only=True)
-    cfg_rules.rule_call_graph(ctx, rep)
-    cfg_rules.rule_return_point_siblings(ctx, rep)
-    cfg_rules.rule_global_edges_inverse(ctx, rep)
+    _r(cfg_rules.rule_cfg_shapes, ctx, rep, rule="T-CFG(subroutines)", subs_only=True)
+    _r(cfg_rules.rule_call_graph, ctx, rep)
+    _r(cfg_rules.rule_return_point_siblings, ctx, rep)
+    _r(cfg_rules.rule_global_edges_inverse, ctx, rep)
 
 
 @prop("C02", "Decides the structural clauses of C02: (R-GATE) guard table of search_paths - a path is appended only at a global leaf, "
@@ -234,12 +250,12 @@ def c05(ctx, rep):
              "duplicates; (R-DEDUP + T-CFG) duplicate-free successor lists; (T-RENDER) short notation / JSON / filter renderings. "
              "Not decided: duplicate- and cycle-freedom of the enumeration for every graph (follows from these clauses; not mechanised).")
 def c02(ctx, rep):
-    detectors.rule_search_paths_exits(ctx, rep)
-    detectors.rule_search_paths_rows(ctx, rep)
-    detectors.rule_renderings(ctx, rep)
-    cfg_rules.rule_successor_dedup(ctx, rep)
-    cfg_rules.rule_global_edges_inverse(ctx, rep)
-    cfg_rules.rule_cfg_shapes(ctx, rep, rule="T-CFG")
+    _r(detectors.rule_search_paths_exits, ctx, rep)
+    _r(detectors.rule_search_paths_rows, ctx, rep)
+    _r(detectors.rule_renderings, ctx, rep)
+    _r(cfg_rules.rule_successor_dedup, ctx, rep)
+    _r(cfg_rules.rule_global_edges_inverse, ctx, rep)
+    _r(cfg_rules.rule_cfg_shapes, ctx, rep, rule="T-CFG")
 
 
 from .rules import function_rules  # noqa: E402
@@ -252,12 +268,12 @@ from .rules import function_rules  # noqa: E402
              "independent of each other; (R-ORDER/R-PAIR/R-ITER/R-OWN) structural rules over parse_functions; (T-BLOCK) the error block "
              "constrains to the empty set. Not decided: C06-C10 relative to exactly the function's executions.")
 def c12(ctx, rep):
-    function_rules.rule_function_construction(ctx, rep)
-    cfg_rules.rule_pass_order(ctx, rep)
-    cfg_rules.rule_edge_pairing(ctx, rep)
-    cfg_rules.rule_no_mutation_under_iteration(ctx, rep)
-    cfg_rules.rule_edge_ownership(ctx, rep)
-    generic_tables.rule_block(ctx, rep)
+    _r(function_rules.rule_function_construction, ctx, rep)
+    _r(cfg_rules.rule_pass_order, ctx, rep)
+    _r(cfg_rules.rule_edge_pairing, ctx, rep)
+    _r(cfg_rules.rule_no_mutation_under_iteration, ctx, rep)
+    _r(cfg_rules.rule_edge_ownership, ctx, rep)
+    _r(generic_tables.rule_block, ctx, rep)
 
 
 from .rules import output_rules  # noqa: E402
@@ -273,12 +289,12 @@ from .rules import version_rules  # noqa: E402
              "abstracted away (its equations are decided under C03); the thorough tier evaluates it on selected shapes. "
              "Not decided: termination and absence of all exceptions on all programs.")
 def c17(ctx, rep):
-    output_rules.rule_outputs_complete(ctx, rep)
-    output_rules.rule_context_annotations(ctx, rep)
-    cfg_rules.rule_cfg_shapes(ctx, rep)
-    cfg_rules.rule_no_mutation_under_iteration(ctx, rep)
-    cmptables.rule_totality(ctx, rep)
-    effects.rule_block_provenance(ctx, rep)
+    _r(output_rules.rule_outputs_complete, ctx, rep)
+    _r(output_rules.rule_context_annotations, ctx, rep)
+    _r(cfg_rules.rule_cfg_shapes, ctx, rep)
+    _r(cfg_rules.rule_no_mutation_under_iteration, ctx, rep)
+    _r(cmptables.rule_totality, ctx, rep)
+    _r(effects.rule_block_provenance, ctx, rep)
 
 
 @prop("C18", "Decides the structural clauses of C18: (T-DOT(cfg)) node set, instruction rows and edge set of the cfg export equal the "
@@ -288,15 +304,15 @@ def c17(ctx, rep):
              "of paths; (T-RENDER) filter removes exactly the matching paths; (T-CALLGRAPH). "
              "Not decided: textual well-formedness of DOT/JSON for all inputs.")
 def c18(ctx, rep):
-    output_rules.rule_dot_full(ctx, rep)
-    output_rules.rule_dot_subroutines(ctx, rep)
-    output_rules.rule_path_highlight(ctx, rep)
-    output_rules.rule_context_annotations(ctx, rep)
-    output_rules.rule_json_envelope(ctx, rep)
-    output_rules.rule_main_detect(ctx, rep)
-    detectors.rule_renderings(ctx, rep)
-    cfg_rules.rule_call_graph(ctx, rep)
-    effects.rule_block_provenance(ctx, rep)
+    _r(output_rules.rule_dot_full, ctx, rep)
+    _r(output_rules.rule_dot_subroutines, ctx, rep)
+    _r(output_rules.rule_path_highlight, ctx, rep)
+    _r(output_rules.rule_context_annotations, ctx, rep)
+    _r(output_rules.rule_json_envelope, ctx, rep)
+    _r(output_rules.rule_main_detect, ctx, rep)
+    _r(detectors.rule_renderings, ctx, rep)
+    _r(cfg_rules.rule_call_graph, ctx, rep)
+    _r(effects.rule_block_provenance, ctx, rep)
 
 
 from .rules import effects  # noqa: E402
@@ -313,15 +329,15 @@ from .rules import effects  # noqa: E402
              "registered in the opposite order, and when run twice; (R-DEFAULT) no mutable default arguments. "
              "Not decided: uniqueness of the fixpoint under different worklist orders; byte-identity of whole outputs.")
 def c14(ctx, rep):
-    effects.rule_shared_roots(ctx, rep)
-    effects.rule_hash_order(ctx, rep)
-    effects.rule_context_writers(ctx, rep)
-    effects.rule_mutable_defaults(ctx, rep)
-    effects.rule_pure_lattice(ctx, rep)
-    detectors.rule_history(ctx, rep)
-    cmptables.rule_addr_store(ctx, rep)
-    cmptables.rule_int_store(ctx, rep)
-    cmptables.rule_universe_fresh(ctx, rep)
+    _r(effects.rule_shared_roots, ctx, rep)
+    _r(effects.rule_hash_order, ctx, rep)
+    _r(effects.rule_context_writers, ctx, rep)
+    _r(effects.rule_mutable_defaults, ctx, rep)
+    _r(effects.rule_pure_lattice, ctx, rep)
+    _r(detectors.rule_history, ctx, rep)
+    _r(cmptables.rule_addr_store, ctx, rep)
+    _r(cmptables.rule_int_store, ctx, rep)
+    _r(cmptables.rule_universe_fresh, ctx, rep)
 
 
 from .rules import spelling  # noqa: E402
@@ -337,12 +353,12 @@ from .rules import spelling  # noqa: E402
              "per-block contexts and the rekey-to paths of the rewritten program equal those of the original. Not decided: the metamorphic "
              "relation for all programs and all compositions; moving subroutine bodies.")
 def c15(ctx, rep):
-    spelling.rule_int_spellings(ctx, rep)
-    spelling.rule_named_constants(ctx, rep)
-    spelling.rule_constant_block(ctx, rep)
-    spelling.rule_one_door(ctx, rep)
-    spelling.rule_rewrite_invariance(ctx, rep)
-    spelling.rule_padding_invariance(ctx, rep)
+    _r(spelling.rule_int_spellings, ctx, rep)
+    _r(spelling.rule_named_constants, ctx, rep)
+    _r(spelling.rule_constant_block, ctx, rep)
+    _r(spelling.rule_one_door, ctx, rep)
+    _r(spelling.rule_rewrite_invariance, ctx, rep)
+    _r(spelling.rule_padding_invariance, ctx, rep)
 
 
 from .rules import regex_rules  # noqa: E402
@@ -355,5 +371,5 @@ from .rules import regex_rules  # noqa: E402
              "a match is reachable; (T-RT, C16) printed text identifies instructions. The thorough tier sweeps all control skeletons. "
              "Not decided: all programs and patterns beyond the enumerated space.")
 def c20(ctx, rep):
-    regex_rules.rule_regex(ctx, rep)
-    optable.rule_prefix_and_roundtrip(ctx, rep)
+    _r(regex_rules.rule_regex, ctx, rep)
+    _r(optable.rule_prefix_and_roundtrip, ctx, rep)
